@@ -84,3 +84,67 @@ func HWide() {
 	nd.Assume(in[0]&31 == byte(24+w))
 	check(in, strict, refcbor.Options{})
 }
+
+func rep(b byte, n int) []byte {
+	r := make([]byte, n)
+	for i := range r {
+		r[i] = b
+	}
+	return r
+}
+
+// entries: n map entries 61 <k> 00 with distinct concrete keys in canonical order.
+func entries(n int) []byte {
+	var r []byte
+	for i := 0; i < n; i++ {
+		r = append(r, 0x61, byte('0'+i), 0x00)
+	}
+	return r
+}
+
+// HTemplates: structured inputs longer than the all-bytes-free bound reaches, free at the
+// positions that decide acceptance: two-entry maps (duplicate / unsorted keys, non-string keys),
+// nesting, indefinite lengths, lengths at the 23/24 and 255/256 head boundaries for strings,
+// bytes, lists and maps, and full-size CIDv1/CIDv0 links with free version, codec and multihash head.
+func HTemplates() {
+	x := func(name string) byte { return nd.Byte(name) }
+	digest := rep(0xab, 32)
+	var in []byte
+	switch nd.Choose("template", nd.Param("T", 17)) {
+	case 0:
+		in = []byte{0xa2, 0x61, x("k1"), x("v1"), 0x61, x("k2"), x("v2")}
+	case 1:
+		in = []byte{0x82, 0x81, x("a"), 0x81, x("b")}
+	case 2:
+		in = []byte{0xa1, 0x61, x("k"), 0x82, x("a"), x("b")}
+	case 3:
+		in = []byte{0xa1, x("kh"), x("kb"), x("v")}
+	case 4:
+		in = []byte{0xbf, 0x61, x("k"), x("v"), 0xff}
+	case 5:
+		in = []byte{x("h"), 0x41, x("a"), 0xff} // 5f/7f/9f... chunked strings and friends
+	case 6:
+		in = append([]byte{0x78, x("len")}, rep('a', 24)...)
+	case 7:
+		in = append([]byte{0x58, x("len")}, rep(1, 24)...)
+	case 8:
+		in = append([]byte{0x98, x("len")}, rep(0, 24)...)
+	case 9:
+		in = append([]byte{0xb8, x("len")}, entries(24)...)
+	case 10:
+		in = append([]byte{0x79, x("hi"), x("lo")}, rep('a', 256)...)
+	case 11:
+		in = append([]byte{0x59, x("hi"), x("lo")}, rep(1, 256)...)
+	case 12:
+		in = append([]byte{0xd8, 0x2a, 0x58, 0x25, 0x00, x("ver"), x("codec"), x("mh"), x("mhlen")}, digest...)
+	case 13:
+		in = append([]byte{0xd8, 0x2a, 0x58, 0x23, 0x00, x("mh"), x("mhlen")}, digest...)
+	case 14:
+		in = append([]byte{0xd8, x("tag"), 0x58, x("len"), x("pre"), 0x01, 0x71, 0x12, 0x20}, digest...)
+	case 15:
+		in = []byte{0x82, x("a"), 0xa1, 0x61, x("k"), 0x81, x("b")}
+	case 16:
+		in = []byte{0xa2, 0x62, x("k1"), x("k2"), 0x00, 0x61, x("k3"), x("t")}
+	}
+	check(in, strict, refcbor.Options{})
+}
